@@ -328,3 +328,13 @@ M('c13-default-count-doc-changed-code-not', 'C13', 'R13', SYNC, "in the form (de
 # negative controls verified by hand with --root (silent): `1 << 20`, `2 ** 20`, `1048576`, a module constant `_MIB = 1024 * 1024`;
 # docstring "(default ``1048576``)" / "(default: ``1 MiB``)"; default and docstring changed together (128 / ``128``);
 # `if not handler.exhaust_stream: pass / else: exhaust()` in both or one flavour; `h = handler` ... (see fixer report)
+
+# ---------------------------------------------------- R10 (continued): secure_filename sanitises `filename` itself (seeded change s9-c13-3)
+_SECURE = "            return misc.secure_filename(self.filename or '')\n"
+M('c13-secure-filename-stripped-first', 'C13', 'R10', SYNC, _SECURE, "            return misc.secure_filename((self.filename or '').strip())\n")
+M('c13-secure-filename-lowercased-first', 'C13', 'R10', SYNC, _SECURE, "            return misc.secure_filename((self.filename or '').lower())\n")
+M('c13-secure-filename-truncated-through-local', 'C13', 'R10', SYNC, _SECURE,
+  "            name = self.filename or ''\n            name = name[:64]\n            return misc.secure_filename(name)\n")
+M('c13-secure-filename-result-truncated', 'C13', 'R10', SYNC, _SECURE, "            return misc.secure_filename(self.filename or '')[:32]\n")
+# negative controls verified by hand with --root (silent): `misc.secure_filename(self.filename)`; `name = self.filename` / `if not name: name = ''`;
+# `self.filename if self.filename else ''`; `from falcon.util.misc import secure_filename as _sf` + `_sf(self.filename or '')`; result through a local
